@@ -230,7 +230,7 @@ theorem tw_trimLeft_adjacent (pre post : List WOp) (u : Bytes) (hpre : ValidOps 
     [.write (decodeRunes u), .trimLeft] [.write (rstrip isSpaceRune (decodeRunes u))]
     (by intro op hop; simp at hop; rcases hop with rfl | rfl; exact hsc; trivial)
     (by intro op hop; simp at hop; subst hop; exact hsr)
-    (by intro gpre gpost _
+    (by intro gpre gpost _ _
         have := trimLeft_adjacent isSpaceRune gpre gpost (decodeRunes u) hu
         simpa using this)
   simp only [List.map_cons, List.map_nil, encOp, e, ← trimRightSpace_encode _ hsc] at this
@@ -248,11 +248,104 @@ theorem tw_trimRight_adjacent (pre post : List WOp) (u : Bytes) (hpre : ValidOps
     [.trimRight, .write (decodeRunes u)] [.write (lstrip isSpaceRune (decodeRunes u))]
     (by intro op hop; simp at hop; rcases hop with rfl | rfl; trivial; exact hsc)
     (by intro op hop; simp at hop; subst hop; exact hsl)
-    (by intro gpre gpost _
+    (by intro gpre gpost _ _
         have := trimRight_adjacent isSpaceRune gpre gpost (decodeRunes u) hu
         simpa using this)
   simp only [List.map_cons, List.map_nil, encOp, e, lstrip, ← trimLeftSpace_encode _ hsc] at this
   simpa using this
+
+/-- byte level, valid UTF-8: the same for any text (blank or empty included) when no `TrimRight` is pending -/
+theorem tw_trimLeft_adjacent_noflag (pre post : List WOp) (u : Bytes) (hpre : ValidOps pre) (hpost : ValidOps post)
+    (hv : ValidUtf8 u) (hf : twFlagAfter pre = false) :
+    runOps (pre ++ .write u :: .trimLeft :: post) = runOps (pre ++ .write (trimRightSpace u) :: post) := by
+  have e := encodeRunes_decodeRunes_of_valid u hv
+  have hsc := decodeRunes_all_scalar u
+  have hsr : ∀ r ∈ rstrip isSpaceRune (decodeRunes u), ValidScalar r := fun r hr =>
+    hsc r (((wsDeletion_rstrip isSpaceRune _).sublist isSpaceRune).subset hr)
+  have := runOps_congr_middle pre post hpre hpost
+    [.write (decodeRunes u), .trimLeft] [.write (rstrip isSpaceRune (decodeRunes u))]
+    (by intro op hop; simp at hop; rcases hop with rfl | rfl; exact hsc; trivial)
+    (by intro op hop; simp at hop; subst hop; exact hsr)
+    (by intro gpre gpost eg sg
+        have hf' : flagAfter isSpaceRune gpre = false := by rw [← flagAfter_enc gpre sg, eg]; exact hf
+        have := trimLeft_adjacent_noflag isSpaceRune gpre gpost (decodeRunes u) hf'
+        simpa using this)
+  simp only [List.map_cons, List.map_nil, encOp, e, ← trimRightSpace_encode _ hsc] at this
+  simpa using this
+
+/-- byte level, valid UTF-8: blank text between a pending `TrimRight` and a `TrimLeft` is deleted
+    and the `TrimLeft` reaches the text before it -/
+theorem tw_trimLeft_adjacent_ws (pre post : List WOp) (u : Bytes) (hpre : ValidOps pre) (hpost : ValidOps post)
+    (hv : ValidUtf8 u) (hu : hasInkBytes u = false) (hf : twFlagAfter pre = true) :
+    runOps (pre ++ .write u :: .trimLeft :: post) = runOps (pre ++ .trimLeft :: .write [] :: post) := by
+  have e := encodeRunes_decodeRunes_of_valid u hv
+  have hsc := decodeRunes_all_scalar u
+  have := runOps_congr_middle pre post hpre hpost
+    [.write (decodeRunes u), .trimLeft] [.trimLeft, .write []]
+    (by intro op hop; simp at hop; rcases hop with rfl | rfl; exact hsc; trivial)
+    (by intro op hop; simp at hop; rcases hop with rfl | rfl; trivial; intro r hr; cases hr)
+    (by intro gpre gpost eg sg
+        have hf' : flagAfter isSpaceRune gpre = true := by rw [← flagAfter_enc gpre sg, eg]; exact hf
+        have := trimLeft_adjacent_ws isSpaceRune gpre gpost (decodeRunes u) hu hf'
+        simpa using this)
+  simp only [List.map_cons, List.map_nil, encOp, e] at this
+  simpa [encodeRunes] using this
+
+/-- byte level, valid UTF-8: `TrimRight` before any text when a `TrimRight` was already pending -/
+theorem tw_trimRight_adjacent_flag (pre post : List WOp) (u : Bytes) (hpre : ValidOps pre) (hpost : ValidOps post)
+    (hv : ValidUtf8 u) (hf : twFlagAfter pre = true) :
+    runOps (pre ++ .trimRight :: .write u :: post) = runOps (pre ++ .write (trimLeftSpace u) :: post) := by
+  have e := encodeRunes_decodeRunes_of_valid u hv
+  have hsc := decodeRunes_all_scalar u
+  have hsl : ∀ r ∈ lstrip isSpaceRune (decodeRunes u), ValidScalar r := scalar_dropWhile hsc _
+  have := runOps_congr_middle pre post hpre hpost
+    [.trimRight, .write (decodeRunes u)] [.write (lstrip isSpaceRune (decodeRunes u))]
+    (by intro op hop; simp at hop; rcases hop with rfl | rfl; trivial; exact hsc)
+    (by intro op hop; simp at hop; subst hop; exact hsl)
+    (by intro gpre gpost eg sg
+        have hf' : flagAfter isSpaceRune gpre = true := by rw [← flagAfter_enc gpre sg, eg]; exact hf
+        have := trimRight_adjacent_flag isSpaceRune gpre gpost (decodeRunes u) hf'
+        simpa using this)
+  simp only [List.map_cons, List.map_nil, encOp, e, lstrip, ← trimLeftSpace_encode _ hsc] at this
+  simpa using this
+
+/-- byte level, valid UTF-8: blank text after a `TrimRight` is deleted; an empty write remains -/
+theorem tw_trimRight_adjacent_ws (pre post : List WOp) (u : Bytes) (hpre : ValidOps pre) (hpost : ValidOps post)
+    (hv : ValidUtf8 u) (hu : hasInkBytes u = false) :
+    runOps (pre ++ .trimRight :: .write u :: post) = runOps (pre ++ .trimRight :: .write [] :: post) := by
+  have e := encodeRunes_decodeRunes_of_valid u hv
+  have hsc := decodeRunes_all_scalar u
+  have := runOps_congr_middle pre post hpre hpost
+    [.trimRight, .write (decodeRunes u)] [.trimRight, .write []]
+    (by intro op hop; simp at hop; rcases hop with rfl | rfl; trivial; exact hsc)
+    (by intro op hop; simp at hop; rcases hop with rfl | rfl; trivial; intro r hr; cases hr)
+    (by intro gpre gpost _ _
+        have := trimRight_adjacent_ws isSpaceRune gpre gpost (decodeRunes u) hu
+        simpa using this)
+  simp only [List.map_cons, List.map_nil, encOp, e] at this
+  simpa [encodeRunes] using this
+
+/-- byte level, ALL byte strings: `TrimRight` followed by an empty write is a no-op when no flag
+    was pending (the empty write consumes the flag) -/
+theorem tw_trimRight_empty_write (pre post : List WOp) (hf : twFlagAfter pre = false) :
+    runOps (pre ++ .trimRight :: .write [] :: post) = runOps (pre ++ post) := by
+  unfold runOps
+  simp only [List.append_assoc, List.cons_append]
+  rw [tw_run_append, tw_run_append {} pre]
+  generalize hT : TW.run {} pre = T at hf ⊢
+  obtain ⟨⟨buf, trim⟩, calls⟩ := T
+  have : trim = false := by simpa [twFlagAfter, hT] using hf
+  subst this
+  simp [TW.run, TW.step, trimLeftSpace, trimLeftSpaceAux]
+
+/-- byte level, ALL byte strings: a `TrimRight` persists across `TrimLeft` and `Flush` -/
+theorem tw_trimRight_persists (pre post : List WOp) :
+    runOps (pre ++ .trimRight :: .trimLeft :: post) = runOps (pre ++ .trimLeft :: .trimRight :: post) ∧
+    runOps (pre ++ .trimRight :: .flush :: post) = runOps (pre ++ .flush :: .trimRight :: post) := by
+  unfold runOps
+  simp only [List.append_assoc, List.cons_append]
+  rw [tw_run_append, tw_run_append {} pre, tw_run_append {} pre, tw_run_append {} pre]
+  simp [TW.run, TW.step]
 
 /-- the operation list of the counterexample: `x 0xC2`, TrimRight, `␠ 0xA0 y` -/
 def twBadOps : List WOp := [.write [0x78, 0xC2], .trimRight, .write [0x20, 0xA0, 0x79]]
@@ -305,6 +398,17 @@ example : eraseTrims [WOp.write [0xC2], .flush, .write [0x20, 0xA0]] = [WOp.writ
 example : hasInkBytes [0x20, 0xC2, 0xA0, 0x78, 0x20] = true ∧
     trimRightSpace [0x20, 0xC2, 0xA0, 0x78, 0x20] = [0x20, 0xC2, 0xA0, 0x78] ∧
     trimLeftSpace [0x20, 0xC2, 0xA0, 0x78, 0x20] = [0x78, 0x20] := by decide
+-- blank text (space, NBSP) between a pending TrimRight and a TrimLeft: deleted, and the TrimLeft reaches `x␠`
+example : twFlagAfter [.write [0x78, 0x20], .trimRight] = true ∧ hasInkBytes [0x20, 0xC2, 0xA0] = false ∧
+    runOps ([.write [0x78, 0x20], .trimRight] ++ .write [0x20, 0xC2, 0xA0] :: .trimLeft :: [.write [0x79]])
+      = [0x78, 0x79] := by decide
+-- no pending flag: the blank text is deleted, `x␠` keeps its blank
+example : twFlagAfter [.write [0x78, 0x20]] = false ∧
+    runOps ([.write [0x78, 0x20]] ++ .write [0x20, 0xC2, 0xA0] :: .trimLeft :: [.write [0x79]])
+      = [0x78, 0x20, 0x79] := by decide
+-- the empty write consumed the flag: `␠y` keeps its blank; and a TrimRight survives a TrimLeft
+example : runOps ([.write [0x78]] ++ .trimRight :: .write [] :: [.write [0x20, 0x79]]) = [0x78, 0x20, 0x79] ∧
+    runOps ([.write [0x78, 0x20]] ++ .trimRight :: .trimLeft :: [.write [0x20, 0x79]]) = [0x78, 0x79] := by decide
 end examples_bytes
 
 /-! ## Part C — the underlying write calls (for C20) -/
